@@ -329,6 +329,10 @@ class M:
         return "M(%d)" % self.k
 
 
+class XBoom(Exception):
+    """raised by a scripted target right after a gate: the frame is left by an exception passing through its blocks"""
+
+
 class Gate:
     def __init__(self):
         self.go = threading.Semaphore(0)
@@ -340,6 +344,10 @@ class Gate:
         self.pos = site
         self.arrived.release()
         self.go.acquire()
+
+    def boom(self, site):
+        self(site)
+        raise XBoom()
 
     def advance(self):
         if self.done:
@@ -427,9 +435,11 @@ def make_script(ir):
             lines.append("    " * ind + "pass")
         for st in stmts:
             t = st["t"]
-            if t == "gate":
+            if t in ("gate", "xgate"):
                 ctr["g"] += 1
-                lines.append("    " * ind + "gate('g%d')" % ctr["g"])
+                # (xgate: the exception comes out of the very call the frame is blocked in, so the frame's f_lasti is the
+                # same before and - restored by RERAISE on the way out of its with / finally blocks - after it has left)
+                lines.append("    " * ind + ("gate('g%d')" if t == "gate" else "gate.boom('g%d')") % ctr["g"])
                 chains.append(tuple(enclosing))
             elif t == "with":
                 ks = []
@@ -455,7 +465,7 @@ def make_script(ir):
     block(ir, 1, [])
     lines.append("    gate('end')")
     src = "\n".join(lines) + "\n"
-    ns = {"FR": FR, "sys": sys, "M": M}
+    ns = {"FR": FR, "sys": sys, "M": M, "XBoom": XBoom}
     exec(compile(src, "<c07-script>", "exec"), ns)
     TARGETS[key] = ns["target"]
     GEN_CHAINS[key] = chains
@@ -480,7 +490,11 @@ def consistent_gen(ctxs, chains):
 
 
 def runner(fn, gate):
-    fn(gate)
+    try:
+        fn(gate)
+    except XBoom:
+        # the scripted frame is gone, its thread is not: it stops once more before it finishes
+        gate("after_exception")
     gate.done = True
     gate.pos = "done"
     gate.arrived.release()
@@ -655,8 +669,6 @@ def one(script, nadv, jstar, k, api, new_thread=False):
 
 
 def run_race(req):
-    if sys.version_info < (3, 11):
-        return {"skipped": "no consistency protocol to explore before 3.11"}
     from stackscope import _glue
     if _glue._verif_hook.__module__ != "stackscope._verif":
         return {"harness_error": "guarded hooks are not enabled in this worker (STACKSCOPE_VERIF)"}
@@ -695,8 +707,10 @@ def run_race(req):
 
 def run_stress(req):
     """Randomised stress with a tiny switch interval: a smoke test for crashes, not evidence of absence."""
-    if sys.version_info < (3, 11):
-        return {"skipped": "no consistency protocol to explore before 3.11"}
+    if req.get("variant") == "exception":
+        return run_stress_exception(req)
+    if req.get("variant") == "short_lived":
+        return run_stress_short_lived(req)
     old = sys.getswitchinterval()
     stop = threading.Event()
     box = {}
@@ -744,6 +758,99 @@ def run_stress(req):
         sys.setswitchinterval(old)
         t.join(30)
     return {"obs": obs, "stats": {"stress_extractions": done, "stress_rejected": rejected}}
+
+
+class StressBoom(Exception):
+    pass
+
+
+def _raiser():
+    raise StressBoom
+
+
+def _victim():
+    with M(1):
+        with M(2):
+            _raiser()          # the frame is left by an exception that passes through both blocks
+
+
+def run_stress_exception(req):
+    """the target's frames keep being left by an exception passing through with blocks (which restores the f_lasti of the
+    raising instruction) while they are inspected"""
+    old = sys.getswitchinterval()
+    stop = threading.Event()
+
+    def spin():
+        while not stop.is_set():
+            try:
+                _victim()
+            except StressBoom:
+                pass
+
+    t = threading.Thread(target=spin, daemon=True)
+    sys.setswitchinterval(1e-6)
+    obs = []
+    done = rejected = 0
+    try:
+        t.start()
+        for _ in range(req["iterations"]):
+            with warnings.catch_warnings(record=True) as w:
+                warnings.simplefilter("always")
+                try:
+                    st = extract(t)
+                except BaseException as ex:
+                    obs.append({"kind": "stress_raised", "exc": repr(ex)})
+                    break
+            done += 1
+            if w:
+                rejected += 1
+                continue
+            for f in st.frames:
+                if f.pyframe.f_code is _victim.__code__:
+                    ks = [getattr(c.obj, "k", None) for c in f.contexts if not c.is_exiting]
+                    if any(not isinstance(c.obj, M) for c in f.contexts if not c.is_exiting) or ks not in ([], [1], [1, 2]):
+                        obs.append({"kind": "stress_inconsistent", "problem": "contexts of the raising frame: %r" % (
+                            [repr(c.obj)[:40] for c in f.contexts],)})
+            if obs:
+                break
+    finally:
+        stop.set()
+        sys.setswitchinterval(old)
+        t.join(30)
+    return {"obs": obs, "stats": {"stress_extractions": done, "stress_rejected": rejected,
+                                  "stress_exception_exit_extractions": done}}
+
+
+def run_stress_short_lived(req):
+    """threads that finish (and whose stacks are freed) while they are being inspected"""
+    old = sys.getswitchinterval()
+    sys.setswitchinterval(2e-4)
+    obs = []
+    done = 0
+
+    def work(n):
+        with M(1):
+            for _ in range(n):
+                pass
+        return n
+
+    try:
+        for i in range(req["iterations"]):
+            t = threading.Thread(target=work, args=(500 + (i % 50) * 200,))
+            t.start()
+            with warnings.catch_warnings(record=True):
+                warnings.simplefilter("always")
+                try:
+                    extract(t)
+                except BaseException as ex:
+                    obs.append({"kind": "stress_raised", "exc": repr(ex)})
+            t.join(30)
+            done += 1
+            if obs:
+                break
+    finally:
+        sys.setswitchinterval(old)
+    return {"obs": obs, "stats": {"stress_extractions": done, "stress_short_lived_threads": done}}
 
 
 def handle(req):
